@@ -93,10 +93,43 @@ func usedAddresses(t *rapid.T, wm *masswallet.WalletManager, id string) []string
 
 func propC07(t *rapid.T) {
 	useProfile(profSmall)
-	w := newWorld(t, 1, 20, nil)
+	// in a third of the cases a second wallet V lives on both instances from the start (B watches the
+	// chain live for V), so that the restore of W on B runs next to a wallet that shares transactions with it
+	nW := 1
+	if rapid.IntRange(0, 2).Draw(t, "neighbourWallet") == 0 {
+		nW = 2
+	}
+	w := newWorld(t, nW, 20, nil)
 	defer w.close()
 	w.allowNullData = true
 	m := w.wallets[0]
+	var v *mwallet
+	var envB *sim.Env
+	if nW == 2 {
+		v = w.wallets[1]
+		var err error
+		envB, err = sim.NewEnv(w.node, 20, nil)
+		if err != nil {
+			t.Fatalf("HARNESS: %v", err)
+		}
+		defer envB.Close()
+		if err := envB.StartStepped(); err != nil {
+			t.Fatalf("HARNESS: %v", err)
+		}
+		if _, err := envB.W.ImportWalletWithMnemonic(&keystore.WalletParams{Mnemonic: v.keys.Mnemonic, PrivatePassphrase: []byte(v.keys.Pass), Remarks: "v", AddressGapLimit: 20}); err != nil {
+			t.Fatalf("HARNESS: import of the neighbour wallet: %v", err)
+		}
+		for n := 0; n < 100; n++ {
+			if ok, _ := envB.W.CheckReady(v.id); ok {
+				break
+			}
+			if _, err := envB.ServeWorker(20 * time.Second); err != nil {
+				t.Fatalf("HARNESS: %v", err)
+			}
+		}
+		w.peers = []*sim.Env{envB}
+		w.flag("neighbour-wallet-on-restoring-instance")
+	}
 	// phase 1: A watches live
 	long := rapid.IntRange(0, 7).Draw(t, "longChain") == 0 || (ev.Thorough() && rapid.IntRange(0, 4).Draw(t, "longChainT") == 0)
 	n1 := rapid.IntRange(6, 28).Draw(t, "phase1")
@@ -139,18 +172,26 @@ func propC07(t *rapid.T) {
 	w.deliverAll(t)
 	w.auditLedger(t)
 	// phase 2: B imports
-	envB, err := sim.NewEnv(w.node, 20, nil)
-	if err != nil {
-		t.Fatalf("HARNESS: %v", err)
+	if envB == nil {
+		var err error
+		envB, err = sim.NewEnv(w.node, 20, nil)
+		if err != nil {
+			t.Fatalf("HARNESS: %v", err)
+		}
+		defer envB.Close()
+		if err := envB.StartStepped(); err != nil {
+			t.Fatalf("HARNESS: %v", err)
+		}
+		if err := envB.CatchUp(); err != nil {
+			t.Fatalf("fresh instance cannot catch up: %v", err)
+		}
+		w.peers = []*sim.Env{envB}
+	} else {
+		// B has been listening all along: let it process what is queued
+		for len(envB.Queue) > 0 {
+			envB.Deliver()
+		}
 	}
-	defer envB.Close()
-	if err := envB.StartStepped(); err != nil {
-		t.Fatalf("HARNESS: %v", err)
-	}
-	if err := envB.CatchUp(); err != nil {
-		t.Fatalf("fresh instance cannot catch up: %v", err)
-	}
-	w.peers = []*sim.Env{envB}
 	how := rapid.SampledFrom([]string{"mnemonic", "mnemonic", "keystore"}).Draw(t, "importHow")
 	if how == "mnemonic" {
 		hint := uint32(rapid.IntRange(0, len(m.issued)).Draw(t, "hint"))
@@ -298,7 +339,7 @@ func propC07(t *rapid.T) {
 				t.Fatalf("B does not open after a stop: %v", err)
 			}
 			if err := envB.W.Start(); err != nil {
-				t.Fatalf("B: WalletManager.Start: %v", err)
+				t.Fatalf("B: WalletManager.Start: %v\n  %s", err, w.journalTail(60))
 			}
 			if s, err := envB.W.SyncedTo(); err != nil || s != w.node.Height() {
 				t.Fatalf("B: after Start() the wallet is synced to %d (%v), the node is at %d", s, err, w.node.Height())
@@ -369,6 +410,9 @@ func propC07(t *rapid.T) {
 		}
 	}
 	wB.wallets = []*mwallet{mB}
+	if v != nil {
+		wB.wallets = append(wB.wallets, v)
+	}
 	t.Logf("history:\n  %s", w.journalTail(40))
 	w.auditLedger(t)
 	wB.auditLedger(t)
@@ -378,6 +422,12 @@ func propC07(t *rapid.T) {
 	sa, sb := ledgerSnapshot(t, w.env.W, m.id), ledgerSnapshot(t, envB.W, m.id)
 	if strings.Join(sa, "\n") != strings.Join(sb, "\n") {
 		t.Fatalf("restored wallet differs from the wallet that watched the chain live:\n  live:     %s\n  restored: %s\n  %s", strings.Join(sa, "\n            "), strings.Join(sb, "\n            "), w.journalTail(30))
+	}
+	if v != nil {
+		va, vb := ledgerSnapshot(t, w.env.W, v.id), ledgerSnapshot(t, envB.W, v.id)
+		if strings.Join(va, "\n") != strings.Join(vb, "\n") {
+			t.Fatalf("the neighbour wallet on the restoring instance differs from the same wallet on the live instance:\n  live:      %s\n  restoring: %s\n  %s", strings.Join(va, "\n             "), strings.Join(vb, "\n             "), w.journalTail(30))
+		}
 	}
 	ua, ub := usedAddresses(t, w.env.W, m.id), usedAddresses(t, envB.W, m.id)
 	if strings.Join(ua, ",") != strings.Join(ub, ",") {
